@@ -29,10 +29,13 @@ PROPERTIES = {
             "no visible optional argument requests its default value without having one (a bool flag with "
             "setPrintDefault(true) makes usage() throw std::runtime_error - as coded, outside the quantifier; the "
             "theorems say exactly when that happens)",
-            "sub-group handlers, usage texts (IUsageText), Groups::displayUsage, help-arg-full and custom captions "
-            "are not modelled; the generators stay outside them",
+            "usage texts (IUsageText), Groups::displayUsage, help-arg-full, custom captions and sub-groups below a "
+            "sub-group are not modelled; the generators stay outside them",
             "the command-line evaluation that reaches the help arguments is shared model A (C01-C04); here only the "
-            "effect of the four standard arguments on UsageParams is modelled, each used at most once",
+            "effect of the standard arguments of the main handler and of a sub-group handler on the one shared "
+            "UsageParams object is modelled (command lines: main standard arguments, the sub-group argument, the "
+            "sub-group handler's standard arguments, its help argument); an exception of the main handler's final "
+            "checks after a sub-group handler finished its usage is not part of the listing",
         ],
     }
 }
@@ -84,7 +87,7 @@ def diff_is_failure(prop, p):
     """The model is proved to list exactly the visible arguments and to answer help-arg with the argument's
     description / 'unknown'; the text is compared byte-exactly.  A difference on a query is a failing input;
     a difference on a configuration line (arg / begin / linelen) is a broken tie only."""
-    return p.line.startswith("us usage") or p.line.startswith("us helparg")
+    return p.line.startswith(("us usage", "us helparg", "us subusage", "us subhelparg"))
 
 
 def unhex(h):
@@ -101,7 +104,7 @@ def nontrivial_key(op, result):
     r = (result or "").split(" ")
     if len(w) < 2:
         return None
-    if w[1] == "usage":
+    if w[1] in ("usage", "subusage"):
         text = ""
         for x in r[1:]:
             if x.startswith("text="):
@@ -110,26 +113,28 @@ def nontrivial_key(op, result):
         entries = [l for l in lines if l.startswith("   ") and len(l) > 3 and l[3] != " "]
         two_line = any(" " not in l[3:] for l in entries) and any(l.startswith("      ") and l[6:7] != " " for l in lines)
         notes = tuple(n in text for n in ("Default value:", "Check:", "Constraint:", "[deprecated]", "[replaced by", "[hidden]"))
-        return ("usage", tuple(sorted(w[2:])), r[0], " ".join(r[1:2]) if r[0] == "throw" else "",
+        sw = tuple(sorted(w[2:])) if w[1] == "usage" else tuple(sorted(x for x in w[2:] if not x.startswith("k=")))
+        return (w[1], sw, r[0], " ".join(r[1:2]) if r[0] == "throw" else "",
                 "Mandatory arguments:" in lines, "Optional arguments:" in lines, two_line, min(len(entries), 3), notes)
-    if w[1] == "helparg":
-        form = "both" if "," in w[2] else ("short" if len(w[2]) == 1 else "long")
+    if w[1] in ("helparg", "subhelparg"):
+        kw = w[-1]
+        form = ("slash-" if "/" in kw else "") + ("both" if "," in kw else ("short" if len(kw.split("/")[-1]) == 1 else "long"))
         out = err = ""
         for x in r[1:]:
             if x.startswith("out="):
                 out = unhex(x[4:])
             if x.startswith("err="):
                 err = unhex(x[4:])
-        return ("helparg", form, r[0], " ".join(r[1:2]) if r[0] == "throw" else "", bool(out), bool(err),
+        return (w[1], form, r[0], " ".join(r[1:2]) if r[0] == "throw" else "", bool(out), bool(err),
                 out.count("\n") > 2)
-    if w[1] == "arg":
+    if w[1] in ("arg", "subarg", "group"):
         feats = tuple(sorted(x.split("=")[0] for x in w[2:] if not x.startswith(("key=", "desc=", "value="))))
-        return ("arg", feats, " ".join(r[:2]))
+        return (w[1], feats, " ".join(r[:2]))
     return (w[1], " ".join(r[:2]))
 
 
 def shrink_keep(line):
-    return line.startswith("us begin")
+    return line.startswith(("us begin", "us sub "))
 
 
 # --------------------------------------------------------------------------------------------------
@@ -225,7 +230,7 @@ def switch_sets(fl, rng=None, all_sets=False):
     return res
 
 
-def gen_arg(rng, used_short, used_long, target_long_len=None):
+def gen_arg(rng, used_short, used_long, target_long_len=None, op="us arg", group=False):
     form = rng.choice(["s", "l", "b", "b"])
     if target_long_len is not None and form == "s":
         form = rng.choice(["l", "b"])
@@ -251,29 +256,36 @@ def gen_arg(rng, used_short, used_long, target_long_len=None):
     if short is None and lng is None:
         return None
     key = ",".join(x for x in ((short, lng) if rng.random() < 0.8 else (lng, short)) if x)
-    kind = rng.choice(["int", "int", "str", "flag"])
-    toks = ["key=" + key, "kind=" + kind]
+    kind = "group" if group else rng.choice(["int", "int", "str", "flag"])
+    toks = ["key=" + key] + ([] if group else ["kind=" + kind])
     if kind == "int" and rng.random() < 0.8:
         toks.append("value=%d" % rng.choice([0, 1, -1, 42, -7, 123456, 99999999, -99999999]))
     if kind == "str" and rng.random() < 0.8:
         toks.append("value=" + hx(rng.choice(["", "hello", "two words", "/tmp/file name.txt", "x" * 50])))
     r = rng.random()
-    if r < 0.25:
+    if group:
+        if r < 0.1:
+            toks.append("default=0")
+        elif r < 0.13:
+            toks.append("default=1")       # the base class has no default value: usage() throws
+    elif r < 0.25:
         toks.append("default=0")
     elif r < 0.4 or (kind == "flag" and r < 0.45):
         toks.append("default=1")
-    if rng.random() < (0.3 if kind != "flag" else 0.04):
+    if rng.random() < (0.04 if kind == "flag" else 0.12 if group else 0.3):
         toks.append("mandatory=1")
     if rng.random() < 0.3:
         toks.append("hidden=1")
     r = rng.random()
+    if group:
+        r = 0.1 + r * 4.5      # a deprecated / replaced sub-group argument cannot be used any more: seldom
     if r < 0.2:
         toks.append("deprecated=1")
     elif r < 0.4:
         toks.append("replaced=" + hx(rng.choice(["-n", "--new-name", "new", "", "the new one"])))
     elif r < 0.43:
         toks += ["deprecated=1", "replaced=" + hx("--both")]
-    if rng.random() < (0.3 if kind != "flag" else 0.05):
+    if rng.random() < (0.3 if kind not in ("flag", "group") else 0.05):
         toks.append("check=" + rng.choice(["lower:3", "upper:100", "lower:-5;upper:9", "range:1:10", "upper:7;lower:2",
                                            "range:-3:3;lower:0", "lower:1;lower:2"]))
     if rng.random() < 0.15:
@@ -285,7 +297,7 @@ def gen_arg(rng, used_short, used_long, target_long_len=None):
         used_short.add(short)
     if lng:
         used_long.add(lng)
-    return "us arg " + " ".join(toks), short, lng
+    return op + " " + " ".join(toks), short, lng
 
 
 def help_queries(rng, shorts, longs, fl):
@@ -315,17 +327,131 @@ def help_queries(rng, shorts, longs, fl):
     return qs
 
 
+SUB_FLAG_NAMES = ["hshort", "hlong", "harg", "adepr", "ushort", "ulong"]
+
+
+def gen_sub_flags(rng):
+    """flags for the sub-group constructor: mostly with an own help argument; hfUsageDeprecated sometimes (it
+    switches the SHARED setting on), hfUsageHidden / hfArgHidden sometimes (the constructor ignores them)"""
+    style = rng.random()
+    if style < 0.35:
+        fl = ["hshort", "hlong", "harg", "adepr", "ushort", "ulong"]
+    elif style < 0.9:
+        fl = rng.choice([["hshort"], ["hlong"], ["hshort", "hlong"]]) + [f for f in SUB_FLAG_NAMES[2:] if rng.random() < 0.5]
+    else:
+        fl = [f for f in SUB_FLAG_NAMES[2:] if rng.random() < 0.4]      # no help argument of its own
+    if rng.random() < 0.1:
+        fl.append("udepr")
+    for f in ("uhidden", "ahidden"):
+        if rng.random() < 0.08:
+            fl.append(f)
+    if rng.random() < 0.15:
+        fl.append("noabbr")
+    return fl
+
+
+def sub_queries(rng, k, fl, sfl, shorts, longs):
+    """usage of sub-group k after run-time setting arguments of the main handler (pre) and of the sub-group
+    handler itself (in); single-argument help inside the sub-group and through the g/key form"""
+    qs = []
+    pre_opts = switch_sets(fl, all_sets=True)
+    in_opts = switch_sets([f for f in sfl if f != "ahidden"], all_sets=True)
+    combos = []
+    for p in pre_opts:
+        for i in in_opts:
+            ncont = sum(1 for x in p + i if x in ("help-short", "help-long"))
+            combos.append((p, i, ncont))
+    ok = [c for c in combos if c[2] <= 1]
+    twice = [c for c in combos if c[2] == 2]
+    n = rng.choice([1, 2, 3, 5, len(ok)])
+    pick = rng.sample(ok, min(n, len(ok)))
+    # every single run-time setting argument of the main handler before the sub-group help
+    for p in pre_opts:
+        if len(p) == 1 and not any(q[0] == p and not q[1] for q in pick) and rng.random() < 0.7:
+            pick.append((p, [], 0))
+    if twice and rng.random() < 0.15:
+        pick.append(rng.choice(twice))          # mContents set twice: rejected by the library
+    for p, i, _ in pick:
+        p, i = list(p), list(i)
+        if rng.random() < 0.3:
+            rng.shuffle(p)
+            rng.shuffle(i)
+        toks = ["us subusage", "k=%d" % k]
+        if p:
+            toks.append("pre=" + ",".join(p))
+        if i:
+            toks.append("in=" + ",".join(i))
+        qs.append(" ".join(toks))
+    return qs
+
+
+def sub_help_queries(rng, k, gkey, fl, sfl, shorts, longs):
+    qs = []
+    pool = sorted(shorts) + sorted(longs) + ["help", "help-arg", "print-deprecated", "zz", "Q"]
+    for _ in range(rng.randint(0, 3)):
+        w = rng.choice(pool)
+        if len(w) > 3 and rng.random() < 0.4:
+            w = w[:rng.randint(2, len(w))].rstrip("-") or w
+        r = rng.random()
+        if "harg" in sfl and r < 0.5:
+            qs.append("us subhelparg k=%d %s" % (k, w))
+        elif "harg" in fl:
+            g = gkey
+            if rng.random() < 0.15:
+                g = rng.choice(["zz", "q", gkey[:max(2, len(gkey) - 1)] if len(gkey) > 2 else gkey])
+            qs.append("us helparg %s/%s" % (g, w))
+    return qs
+
+
 def random_case(rng, cid):
     fl = gen_flags(rng)
     lines = ["us begin flags=" + (",".join(fl) or "-")]
     shorts, longs = set(), set()
     nargs = rng.choice([0, 1, 1, 2, 3, 4, 6, 9])
+    # sub-group handlers in about 45 % of the cases
+    nsubs = rng.choice([0, 0, 0, 0, 0, 0, 1, 1, 1, 2, 3]) if rng.random() < 0.82 else 1
     # key lengths around the same-line threshold: the longest key string is 37..42 characters
     target = None
     if rng.random() < 0.4 and nargs > 0:
         target = rng.choice([37, 38, 39, 40, 41, 42])
     tpos = rng.randrange(nargs) if nargs else 0
-    for i in range(nargs):
+    # where the sub-group handlers are constructed / attached among the main handler's arguments
+    sub_pos = sorted(rng.randint(0, nargs) for _ in range(nsubs))
+    subs = []          # (k, flags, shorts, longs, group key as typed after --help-arg)
+    queries = []
+
+    def make_sub():
+        k = len(subs)
+        sfl = gen_sub_flags(rng)
+        lines.append("us sub flags=" + (",".join(sfl) or "-"))
+        ss, sl = set(), set()
+        n = rng.choice([0, 1, 2, 3, 3, 4, 6])
+        starget = rng.choice([37, 38, 39, 40, 41, 42]) if n and rng.random() < 0.25 else None
+        spos = rng.randrange(n) if n else 0
+        for i in range(n):
+            a = gen_arg(rng, ss, sl, (starget - rng.choice([2, 5])) if starget is not None and i == spos else None,
+                        op="us subarg k=%d" % k)
+            if a is None:
+                continue
+            lines.append(a[0])
+            if rng.random() < 0.02:
+                lines.append(a[0])
+        if rng.random() < 0.92:
+            # the sub-group argument of the main handler: shares the main handler's key space in the generator
+            # (the library keeps mArguments and mSubGroupArgs apart; a clash now and then, see below)
+            g = gen_arg(rng, shorts, longs, None, op="us group k=%d" % k, group=True)
+            if g is not None:
+                lines.append(g[0])
+                subs.append((k, sfl, ss, sl, g[1] or g[2]))
+                return
+        subs.append((k, sfl, ss, sl, None))
+
+    for i in range(nargs + 1):
+        while sub_pos and sub_pos[0] == i:
+            sub_pos.pop(0)
+            make_sub()
+        if i == nargs:
+            break
         tl = None
         if target is not None and i == tpos:
             tl = target - rng.choice([2, 5])          # "--word" or "-c,--word"
@@ -335,10 +461,23 @@ def random_case(rng, cid):
         lines.append(a[0])
         if rng.random() < 0.03:
             lines.append(a[0])      # the same key again: rejected by the storage
+    if subs and rng.random() < 0.06:
+        # a plain argument with the key of a sub-group argument / the other way round: two containers, accepted
+        k, sfl, ss, sl, gk = rng.choice(subs)
+        if gk:
+            lines.append("us arg key=%s kind=int desc=%s" % (gk, hx("same key as the group")))
     if rng.random() < 0.2:
         lines.append("us linelen %d" % rng.choice([59, 60, 61, 79, 100, 239, 240, rng.randint(60, 239)]))
+    if subs and rng.random() < 0.15:
+        lines.append("us sublinelen k=%d %d" % (rng.choice(subs)[0], rng.choice([59, 60, 72, 120, 239, 240])))
     for sw in switch_sets(fl, rng):
         lines.append(("us usage " + " ".join(sw)).strip())
+    for k, sfl, ss, sl, gk in subs:
+        # (a sub-group handler without help argument or without sub-group argument cannot be asked)
+        if gk and ("hshort" in sfl or "hlong" in sfl):
+            lines += sub_queries(rng, k, fl, sfl, ss, sl)
+        if gk:
+            lines += sub_help_queries(rng, k, gk, fl, sfl, ss, sl)
     if "harg" in fl:
         lines += help_queries(rng, shorts, longs, fl)
     return Case(cid, lines)
@@ -391,13 +530,60 @@ def exhaustive_cases(pairs):
     return cases
 
 
+SUBALL = ["hshort", "hlong", "harg", "adepr", "ushort", "ulong"]
+
+
+def sub_attr_line(idx, form, attr, desc="does something"):
+    return attr_line(idx, form, attr, 5, desc).replace("us arg ", "us subarg k=0 ", 1)
+
+
+def sub_setting_queries(main_fl, sub_fl, with_in):
+    """sub-group usage after every combination of run-time setting arguments of the main handler (and of the
+    sub-group handler), at most one contents argument - plus the two-contents combinations, which are rejected"""
+    qs = []
+    for p in switch_sets(main_fl, all_sets=True):
+        for i in (switch_sets(sub_fl, all_sets=True) if with_in else [[]]):
+            ncont = sum(1 for x in p + i if x.startswith("help-"))
+            if ncont == 2 and not (p[-1] == "help-short" and len(p) == 1):
+                continue
+            toks = ["us subusage k=0"] + (["pre=" + ",".join(p)] if p else []) + (["in=" + ",".join(i)] if i else [])
+            qs.append(" ".join(toks))
+    return qs
+
+
+def exhaustive_sub_cases():
+    """one sub-group handler with one argument (attributes x key form, x preset flags of main / sub-group
+    handler) under every main x sub-group setting combination; two arguments in the sub-group (attributes x key
+    form, squared) under all 12 settings requested on the main handler"""
+    cases = []
+    k = 0
+    group = "us group k=0 key=g,group desc=" + hx("the group")
+    for form in FORMS:
+        for attr in ATTRS:
+            for mfl in ([[], ["uhidden"], ["udepr"], ["uhidden", "udepr"]] if form == "b" else [[]]):
+                for sfl in ([[], ["udepr"]] if form == "b" else [[]]):
+                    k += 1
+                    lines = ["us begin flags=" + ",".join(ALLFLAGS + mfl), "us sub flags=" + ",".join(SUBALL + sfl),
+                             sub_attr_line(0, form, attr, "one two\nthree"), group]
+                    lines += sub_setting_queries(ALLFLAGS, SUBALL, True)
+                    lines += ["us usage", "us subhelparg k=0 a", "us subhelparg k=0 al", "us helparg g/alpha",
+                              "us helparg gr/a", "us helparg g", "us helparg x/a"]
+                    cases.append(Case("x3.%d" % k, lines))
+    for f1, f2 in itertools.product(FORMS, repeat=2):
+        for a1, a2 in itertools.product(ATTRS, repeat=2):
+            k += 1
+            lines = ["us begin flags=" + ",".join(ALLFLAGS), "us sub flags=hshort", sub_attr_line(0, f1, a1),
+                     sub_attr_line(1, f2, a2), group]
+            lines += sub_setting_queries(ALLFLAGS, [], False)
+            cases.append(Case("x4.%d" % k, lines))
+    return cases
+
+
 def generate(prop, tier, seed, scale=1):
     rng = random.Random("%s-%s" % (prop, seed))
-    ncases = (2500 if tier == "quick" else 40000) * scale
+    ncases = (2000 if tier == "quick" else 30000) * scale
     yield "generated", [random_case(rng, "g%d" % i) for i in range(ncases)]
-    if tier == "quick":
-        yield ("exhaustive 1 and 2 arguments: attributes x key form (x key length) x 12 display settings",
-               exhaustive_cases(True))
-    else:
-        yield ("exhaustive 1 and 2 arguments: attributes x key form (x key length) x 12 display settings",
-               exhaustive_cases(True))
+    yield ("exhaustive 1 and 2 arguments: attributes x key form (x key length) x 12 display settings",
+           exhaustive_cases(True))
+    yield ("exhaustive sub-group handler with 1 and 2 arguments: attributes x key form (x preset flags) x display "
+           "settings requested on the main handler (x on the sub-group handler)", exhaustive_sub_cases())
